@@ -96,15 +96,20 @@ def judge(before, active_before, srv, o, names=NAMESETS[0]):
 
 # how the server words its completions (RefServer._text_choice): quoted | code + literal | code + two-line literal with a status look-alike
 STATUS_FORMS = [0, 3, 4, 1]
+CUT_SPAN = {"quick": 170, "thorough": 400}
 
 
-def run_case(state, body_i, faults, ns_i=0, form=0):
+def run_case(state, body_i, faults, ns_i=0, form=0, cut=None, lit=0):
     names = NAMESETS[ns_i]
     store, active = build(state, BODIES[body_i], names)
-    srv = refms.RefServer(store=store, active=active, version=False, faults=[(v, 0, a) for v, a in faults])
+    ch = refms.FixedChoices({"list-name-literal": lit, "getscript-quoted": 0}) if lit else None
+    srv = refms.RefServer(ch=ch, store=store, active=active, version=False, faults=[(v, 0, a) for v, a in faults])
     srv.status_form = form
     before = dict(srv.store)
     s = wire.open_session(srv)
+    if cut is not None:
+        # one recv() boundary somewhere in the replies of the emulation's steps (offsets count from the first reply byte)
+        s.cur_socket().set_seg(("cuts", [cut]) if cut > 0 else ("cap", -cut))
     o = s.call("renamescript", names["old"], names["new"])
     return judge(before, active, srv, o, names), o, srv
 
@@ -136,6 +141,17 @@ def task(t):
                                   "witness": "state old=%s new=%s other=%s faults=%r body=%r" % (state + (faults, BODIES[bi])), "observed": o.brief()})
                 elif sample is None and faults and o.kind == "ret":
                     sample = {"state": "old=%s new=%s other=%s" % state, "faults": repr(faults), "outcome": o.brief(), "store_after": sorted(srv.store)}
+        # segmentation inside the emulation: every single cut in the first CUT_SPAN reply bytes and small recv caps, names sent quoted / as literals
+        for lit in (0, 1):
+            for cut in list(range(1, CUT_SPAN[tier] + 1)) + [-1, -2, -3, -7]:
+                bad, o, srv = run_case(state, 0, (), 0, 0, cut, lit)
+                n += 1
+                if bad:
+                    viols.append({"property": "C14", "engine": "wire",
+                                  "signature": ["C14", "old=%s new=%s other=%s" % state + ("/literal-names" if lit else ""), "segmented", bad[0]],
+                                  "what": "emulated rename old->new from state old=%s new=%s other=%s, replies cut at %r: %s (outcome %s)" % (state + (cut, bad[1], o.brief())),
+                                  "case": {"state": list(state), "body_i": 0, "faults": [], "ns_i": 0, "cut": cut, "lit": lit},
+                                  "witness": "state old=%s new=%s other=%s cut=%r literal-names=%d" % (state + (cut, lit)), "observed": o.brief()})
     return dict(n=n, distinct=len(distinct), violations=viols, sample=sample)
 
 
@@ -169,7 +185,7 @@ def replay(payload):
     c = payload["case"]
     if c.get("native"):
         return []
-    bad, o, srv = run_case(tuple(c["state"]), c["body_i"], tuple(tuple(f) for f in c["faults"]), c.get("ns_i", 0), c.get("form", 0))
+    bad, o, srv = run_case(tuple(c["state"]), c["body_i"], tuple(tuple(f) for f in c["faults"]), c.get("ns_i", 0), c.get("form", 0), c.get("cut"), c.get("lit", 0))
     if bad:
         sig = list(payload["signature"])
         sig[3] = bad[0]
